@@ -52,7 +52,9 @@ func TestVerifGlob(t *testing.T) {
 	}
 	defer of.Close()
 	palpha := []string{"a", "b", "/", ".", "*", "?", "\\", "+"}
-	salpha := []string{"a", "b", ".", "/"}
+	// escaped brackets are metacharacters too; they enter through whole tokens
+	extra := []string{"\\[", "\\]", "a\\[b\\]", "\\[\\]", "x\\\\y", "\\\\", "a\\\\", "\\*a", "\\?"}
+	salpha := []string{"a", "b", ".", "/", "\\"}
 	paths := strs(salpha, slen)[1:]
 	var batch []map[string]any
 	nline := 0
@@ -88,6 +90,10 @@ func TestVerifGlob(t *testing.T) {
 	}
 	for _, p := range strs(palpha, plen1)[1:] {
 		try([]string{p}, paths)
+	}
+	for _, p := range extra {
+		try([]string{p}, append([]string{"[", "]", "a[b]", "[]", "x\\y", "x\\\\y", "\\", "\\\\", "a\\", "*a", "?", "a"}, paths[:40]...))
+		try([]string{p, "a"}, []string{"[", "]", "a[b]", "[]", "x\\y", "\\", "a\\", "*a", "?", "a", "aa"})
 	}
 	shortPaths := strs(salpha, min(slen, 3))[1:]
 	p2 := strs(palpha, plen2)[1:]
